@@ -21,6 +21,12 @@ def R(mod, name, cfg="rc"):
 
 
 PROPS = {
+    "C06": dict(
+        rules=[R("borrow", "rule_borrow")],
+        clause="Panic families visible in code shape: a RefCell guard of a shared container held across re-entrant or "
+               "aliasing code (R-BORROW). Not decided: panic-freedom in general.",
+        technique="guard live-range dataflow over MIR x whole-workspace call graph (CHA + callback-through-bounds edges)",
+    ),
     "C03": dict(
         rules=[R("placeholder", "rule_placeholder")],
         clause="Every conditional jump emitted for a pattern, alternative, guard, type check or map-key test is filed in "
@@ -74,3 +80,25 @@ ASSUMPTIONS = [
     "the workspace are assumed to honour the trait's documented contract",
     "unwind edges are ignored (a panic is itself a C06 violation)",
 ]
+
+
+DESIGN_REF = {}
+
+# Properties not (yet) claimed, with the reason.  Entries for properties that appear in PROPS are ignored.
+NOT_APPLICABLE = {
+    "C01": "rules for its structural clauses (encoder/decoder layout agreement, number tower) are not built yet",
+    "C02": "argument binding and capture semantics are functions of run-time register contents and of the emitted "
+           "bytecode; no clause is visible in the shape of the Rust code (DESIGN.md section 5)",
+    "C04": "rules for its structural clauses (iterator error outputs never dropped) are not built yet",
+    "C09": "every clause constrains numeric cursor values computed from the input's characters; no structural "
+           "necessary condition exists (DESIGN.md section 5)",
+    "C10": "rules not built yet",
+    "C11": "rules not built yet",
+    "C13": "rules not built yet",
+    "C14": "rules not built yet",
+    "C15": "rules not built yet",
+    "C16": "rules not built yet",
+    "C17": "rules not built yet",
+    "C19": "rules not built yet",
+    "C20": "rules not built yet",
+}
